@@ -7,6 +7,7 @@ import (
 	"fmt"
 	"go/types"
 	"reflect"
+	"strings"
 )
 
 // deepEqualIface models reflect.DeepEqual(x, y) on two interface-boxed values.  The result
@@ -218,10 +219,19 @@ func mapEntries(v value) (keys, vals []value) {
 	return
 }
 
-// cmpEqualSchemaTypes models cmp.Equal(a, b, cmputil.Opts(*a, *b)...) for *schemas.Type as
-// configured in pkg/cmputil/opts.go: unexported fields, Ref and AnyOf of schemas.Type are
-// ignored.  (cmp.Equal treats nil and empty slices/maps as different, like DeepEqual.)
-func (i *interpreter) cmpEqualSchemaTypes(x, y iface) value {
+// cmp.Equal(a, b, opts...) with the options the repository builds in pkg/cmputil:
+// cmpopts.IgnoreUnexported(T...) and cmpopts.IgnoreFields(T, names...).  The options are
+// honoured as given (a change to the option list changes the comparison), for struct types
+// T; dotted field paths and other options are UNSUPPORTED.  (cmp.Equal treats nil and empty
+// slices/maps as different, like DeepEqual; it panics on unexported fields that no option
+// covers -- modelled as UNSUPPORTED.)
+type cmpOpt struct {
+	unexported bool
+	typ        types.Type
+	names      []string
+}
+
+func (i *interpreter) cmpEqual(x, y iface, opts []cmpOpt) value {
 	if x.t == nil || y.t == nil {
 		return x.t == nil && y.t == nil
 	}
@@ -229,12 +239,28 @@ func (i *interpreter) cmpEqualSchemaTypes(x, y iface) value {
 		return false
 	}
 	ignore := func(st *types.Struct, idx int, owner types.Type) bool {
-		n, ok := owner.(*types.Named)
-		if !ok || n.Obj().Name() != "Type" || n.Obj().Pkg() == nil || n.Obj().Pkg().Name() != "schemas" {
-			return false
-		}
 		f := st.Field(idx)
-		return !f.Exported() || f.Name() == "Ref" || f.Name() == "AnyOf"
+		covered := false
+		for _, o := range opts {
+			if !types.Identical(o.typ, owner) {
+				continue
+			}
+			if o.unexported {
+				if !f.Exported() {
+					return true
+				}
+				continue
+			}
+			for _, n := range o.names {
+				if n == f.Name() {
+					return true
+				}
+			}
+		}
+		if !f.Exported() && !covered {
+			panic(unsupported("cmp.Equal on an unexported field not covered by IgnoreUnexported (it panics): " + f.Name()))
+		}
+		return false
 	}
 	r := i.deepEq(x.t, x.v, y.v, map[[2]*value]bool{}, ignore)
 	if r.t == "true" {
@@ -248,11 +274,42 @@ func (i *interpreter) cmpEqualSchemaTypes(x, y iface) value {
 
 func init() {
 	natives["github.com/google/go-cmp/cmp.Equal"] = func(fr *frame, a []value) value {
-		return fr.i.cmpEqualSchemaTypes(a[0].(iface), a[1].(iface))
+		var opts []cmpOpt
+		if xs, ok := a[2].([]value); ok {
+			for _, o := range xs {
+				it, ok := o.(iface)
+				if !ok {
+					panic(unsupported("cmp.Equal option"))
+				}
+				co, ok := it.v.(cmpOpt)
+				if !ok {
+					panic(unsupported(fmt.Sprintf("cmp.Equal option %T", it.v)))
+				}
+				opts = append(opts, co)
+			}
+		}
+		return fr.i.cmpEqual(a[0].(iface), a[1].(iface), opts)
 	}
-	dummy := func(fr *frame, a []value) value { return iface{} }
-	natives["github.com/google/go-cmp/cmp/cmpopts.IgnoreUnexported"] = dummy
-	natives["github.com/google/go-cmp/cmp/cmpopts.IgnoreFields"] = dummy
+	optType := types.NewNamed(types.NewTypeName(0, nil, "cmpOption", nil), types.NewStruct(nil, nil), nil)
+	natives["github.com/google/go-cmp/cmp/cmpopts.IgnoreUnexported"] = func(fr *frame, a []value) value {
+		xs, _ := a[0].([]value)
+		if len(xs) != 1 {
+			panic(unsupported("cmpopts.IgnoreUnexported with other than one type"))
+		}
+		return iface{t: optType, v: cmpOpt{unexported: true, typ: xs[0].(iface).t}}
+	}
+	natives["github.com/google/go-cmp/cmp/cmpopts.IgnoreFields"] = func(fr *frame, a []value) value {
+		var names []string
+		xs, _ := a[1].([]value)
+		for _, n := range xs {
+			s, ok := n.(string)
+			if !ok || strings.Contains(s, ".") {
+				panic(unsupported("cmpopts.IgnoreFields with a symbolic or dotted name"))
+			}
+			names = append(names, s)
+		}
+		return iface{t: optType, v: cmpOpt{typ: a[0].(iface).t, names: names}}
+	}
 }
 
 // ---- typed conversion to real Go values (litter.Sdump) ----
